@@ -13,7 +13,7 @@ PID = "C16"
 THEOREMS = [
     "c16_decode_format", "c16_decode_concat", "c16_header_like_text_harmless",
     "c16_rotation_lossless", "c16_rotation_lossless_after_flush", "c16_flush_leaves_nothing_buffered",
-    "c16_sync_mode_writes_through", "c16_rotation_gc_history",
+    "c16_sync_mode_writes_through", "c16_rotation_gc_history", "c16_reopen_same_name_appends",
     "c16_gc_keeps_newest", "c16_gc_keeps_only_within_bound", "c16_gc_incl", "c16_gc_keeps_current",
     "c16_extended_program_name_not_listed", "c16_gc_other_programs_untouched", "c16_gc_own_files",
     "c16_gc_other_loggers_unchanged",
@@ -62,20 +62,41 @@ def split_cases(text):
     return res
 
 
-def shard_text(lists, k, nshards):
+def plan_shards(lists, nshards):
+    """Distribute the items of every list over nshards shards so that the shards
+    have about the same amount of text (the cost is parsing): largest item
+    first into the lightest shard.  Returns {list name: [[original index, ...] per shard]}."""
+    load = [0] * nshards
+    plan = {name: [[] for _ in range(nshards)] for name, _, _ in LISTS}
+    allitems = [(len(it), name, i) for name, _, _ in LISTS for i, it in enumerate(lists.get(name, []))]
+    for size, name, i in sorted(allitems, key=lambda x: (-x[0], x[1], x[2])):
+        k = min(range(nshards), key=lambda j: (load[j], j))
+        load[k] += size
+        plan[name][k].append(i)
+    for name in plan:
+        for k in range(nshards):
+            plan[name][k].sort()
+    return plan
+
+
+def shard_text(lists, plan, k):
     parts = []
     for name, typ, _ in LISTS:
-        items = lists.get(name, [])[k::nshards]
+        items = [lists[name][i] for i in plan[name][k]]
         body = "[\n  " + ";\n  ".join(items) + "\n]" if items else "[]"
         parts.append("Definition %s : list %s := %s.\n" % (name, typ, body))
     return "\n".join(parts)
 
 
 def eval_sharded(tier, lists, nshards, timeout):
-    """Evaluate the queries on nshards interleaved shards in parallel; return
+    """Evaluate the queries on nshards size-balanced shards in parallel; return
     ({query: sorted original indices} or None on failure, output tail)."""
+    plan = plan_shards(lists, nshards)
+    qlist = {q: key for q, _, key in QUERIES}
+    keyname = {key: name for name, _, key in LISTS}
+
     def one(k):
-        return vlib.eval_cases(PID, "%s_%d" % (tier, k), HEADER, shard_text(lists, k, nshards),
+        return vlib.eval_cases(PID, "%s_%d" % (tier, k), HEADER, shard_text(lists, plan, k),
                                [(q, e) for q, e, _ in QUERIES], timeout=timeout)
     vals = {q: [] for q, _, _ in QUERIES}
     bad_out = None
@@ -86,7 +107,8 @@ def eval_sharded(tier, lists, nshards, timeout):
                 if rc != 0 or v is None:
                     bad_out = out[-4000:]
                     continue
-                vals[q].extend(i * nshards + k for i in v)
+                idx = plan[keyname[qlist[q]]][k]
+                vals[q].extend(idx[i] for i in v)
     if bad_out is not None:
         return None, bad_out
     return {q: sorted(v) for q, v in vals.items()}, ""
@@ -227,6 +249,7 @@ def run(tier, seed):
         "bufio.Scanner's buffer is not modelled: the model's split sees the whole remaining input; true of the real decoder as long as an entry plus the header of the next fits in bufio.MaxScanTokenSize (65536 bytes); generated entries stay below 21 KB",
         "regexp, time.Parse, strconv.Atoi and strings.TrimSpace are modelled by hand-written functions (match_at, time_ok, span_digits, trim_space) and exercised by the cases, incl. perturbed streams; a multi-byte rune matched by the regexp's unescaped '.' is outside the model",
         "the harness process runs with time.Local set to a fixed non-UTC zone (offset chosen by the seed, in distribution.local_zone_offset_s) and converts with .UTC() itself",
+        "close + re-open: the model follows a name collision with the newest file only; the harness closes a file only while its name is not ahead of the wall clock (after several rotations within one second the names run ahead, and a re-open would then append to, or create, an older-named file: not generated, see report)",
         "buffered mode: what is in the files before a flush depends on the asynchronous flush daemon and is not compared; files are looked at right after Flush(), or without a flush only while sync mode is on",
         "rotation/GC: a message is (identifier, byte length of its formatted entry); the per-file header entries are a constant size measured by calibration at the start and re-checked at the end of the run; sizes are sizes after log.Flush(); GC runs right after a flush; file names generated by create() are assumed new",
         "header widths are constant only if the goroutine id the logger prints is: the vendored petermattis/goid (2018) reads a runtime status word on go1.23 (2, or 4098 while the GC scans the stack), so the harness runs the logger histories with the Go garbage collector off and discards+redoes a history in whose files two goroutine ids appear (count: distribution.hist_discarded_goid_glitch)",
@@ -259,7 +282,7 @@ def run(tier, seed):
         shutil.rmtree(out, ignore_errors=True)
 
     lists = split_cases(cases_v)
-    nshards = max(2, min(8 if tier == "quick" else 16, vlib.NCPU))
+    nshards = max(2, min(12 if tier == "quick" else 16, vlib.NCPU))
     vals, bad_out = eval_sharded(tier, lists, nshards, 3000)
     n_eval = summary["codec"] + summary["raw"] + summary["probe"] + summary["hist"] + summary["multi"]
     res.coverage.update({
@@ -268,18 +291,21 @@ def run(tier, seed):
         "rule": ("codec: sequences of 1-6 (sometimes 60) random entries inside the round-trip guards, through the real Entry.Format and NewEntryDecoder: "
                  "boundary instants (2000-01-01, last microsecond of 2068, leap days, month ends, microsecond 0/999999, sub-microsecond remainders), goroutine 0 / MaxInt64, "
                  "file names with spaces, dots, digits, tabs, non-ASCII, header-like and colon-bearing messages, near-white-space bytes at message edges, messages longer than bufio's first buffer; "
+                 "the decoder is fed through readers rotating over whole / one byte / half / data-with-EOF / k bytes per read (k from 2 to 4097); "
+                 "a sweep of read boundaries over every offset of a long header (first entry of 128-off bytes, reader of 64/32/16 bytes); streams of 200-1700 small entries (up to ~70 KB, beyond bufio's 64 KiB; thorough: 5000); "
                  "plus the known ambiguous shape (class witness). non-trivial = at least two entries, or a header-like message, or goroutine omitted; distinct by stream. "
                  "raw: one perturbation of a valid stream (30 kinds: separators, impossible dates, truncation, garbage, CRLF, out-of-range numbers), decoder vs model; distinct by stream. "
                  "probe: 20 kinds of entries outside the guards (white space at message edges, colon/empty/newline file names, negative numbers, years outside 2000-2068, multi-line messages), model agreement only. "
                  "hist: real main/secondary logger in a fresh directory, LogFileMaxSize in {64..4096} around the measured header size, entry sizes steered to the rotation threshold +-2 using the real syncBuffer.nbytes, "
-                 "threshold changes, snapshots (flush, list, decode every file), SetSync(true) followed by a flush and a snapshot with no write in between (and SetSync(false) back), looks at the files without a flush while in sync mode, GC runs with bounds at the cumulative sizes +-1 / 0 / MaxInt64, planted older files (empty, zero-filled or holding formatted messages of their own; named after the real or after another host/user so that name order and time-stamp order differ), FetchEntriesFromFiles on the main logger; gc-only: planted file sets + GC. "
+                 "threshold changes, snapshots (flush, list, decode every file), SetSync(true) followed by a flush and a snapshot with no write in between (and SetSync(false) back), looks at the files without a flush while in sync mode, GC runs with bounds at the cumulative sizes +-1 / 0 / MaxInt64, planted older files (empty, zero-filled or holding formatted messages of their own; named after the real or after another host/user so that name order and time-stamp order differ), FetchEntriesFromFiles on the main logger; gc-only: planted file sets + GC; reopen: the file is closed and written to again at once (same second: create() generates the name the file already has), only while the newest name is not ahead of the clock; the model runs with the observed file time stamps as its clock. "
                  "non-trivial = at least two files at the end or a GC run; distinct by operation list. "
                  "multi: the main logger and one or two secondary loggers (the name of one a prefix of the other's, as the main logger's program name is of both) plus sometimes a program without logger whose name extends the main logger's, all in one directory, "
                  "older files of any of them planted; interleaved logging with sizes steered to each logger's threshold, GC runs of one logger with small bounds / bounds at its own cumulative sizes +-1, snapshots by scanning the directory and parsing names (not through listLogFiles), "
                  "what each logger's listLogFiles returns, FetchEntriesFromFiles at the end; non-trivial = at least two loggers wrote and a GC ran."),
         "samples": summary["samples"],
         "distribution": {k: summary[k] for k in ("codec", "codec_entries", "codec_classes", "raw", "raw_kinds", "probe",
-                                                  "local_zone_offset_s", "hist", "hist_error", "hist_discarded_goid_glitch", "hist_log_ops", "hist_gc_ops", "hist_files_at_end", "multi", "multi_log_ops", "multi_gc_ops", "calibration")},
+                                                  "local_zone_offset_s", "hist", "hist_error", "hist_discarded_goid_glitch", "hist_log_ops", "hist_gc_ops", "hist_files_at_end", "hist_close_reopen_ops", "hist_reopens_under_same_name", "codec_readers", "codec_longest_stream",
+                                                  "multi", "multi_log_ops", "multi_gc_ops", "calibration")},
         "outside_guard_probes": {"kinds": summary["probe_kinds"], "real_roundtrip_failures": summary["probe_roundtrip_failures"]},
         "traces_validated_against_impl": summary["hist"] + summary["multi"],
         "shards": nshards,
@@ -309,9 +335,9 @@ def run(tier, seed):
                     % (first, "/".join(fields),
                        a["Sev"], a["Civil"], a["Gid"], a["File"], a["Line"], a["Msg"][:80],
                        b["Sev"], b["Civil"], b["Gid"], b["File"], b["Line"], b["Msg"][:80]))
-        what = ("an entry that was formatted is not decoded back to itself (%d entries in, %d out, decoder status %d%s)"
-                % (len(c["In"] or []), len(c["Out"] or []), c["Err"], diff))
-        res.violation(sig, what, {"kind": "failing-input", "input": {"In": c["In"]}, "formatted": c["Stream"],
+        what = ("an entry that was formatted is not decoded back to itself (%d entries in, %d out, decoder status %d, stream of %d bytes read through reader '%s'%s)"
+                % (len(c["In"] or []), len(c["Out"] or []), c["Err"], len(_b(c["StreamB"])), c.get("Reader", "whole"), diff))
+        res.violation(sig, what, {"kind": "failing-input", "input": {"In": c["In"], "Reader": c.get("Reader", "whole")}, "formatted": c["Stream"],
                                   "decoded": c["Out"], "decoder_error": c["ErrText"],
                                   "replay": "./check C16 --replay <this file>"})
     loss = set(vals["Oloss"])
